@@ -49,8 +49,8 @@ K_POSLIST = 'C18:pos:list-input'
 
 # ----------------------------------------------------------------------------- surfaces
 
-def build_surface(s):
-    """GammaSurface from a surface case + my own description of it"""
+def surface_args(s):
+    """keyword arguments of GammaSurface(...) / GammaSurface.set(...) for a surface case + my own description of it"""
     import atomman as am
     V = G.box_vects(s['box'])
     box = None if s['box'] is None else am.Box(vects=V)
@@ -64,17 +64,53 @@ def build_surface(s):
     a2 = [j / n2 for i, j in rows]
     E = [s['E'][i % n1][j % n2] for i, j in rows]
     D = None if s['D'] is None else [s['D'][i % n1][j % n2] for i, j in rows]
-    g = am.defect.GammaSurface(a1vect=s['a1vect'], a2vect=s['a2vect'], a1=a1, a2=a2, E_gsf=E, box=box, delta=D)
+    kw = dict(a1vect=s['a1vect'], a2vect=s['a2vect'], a1=a1, a2=a2, E_gsf=E, box=box, delta=D)
     A1 = np.array(s['a1v3'], dtype=float) @ V
     A2 = np.array(s['a2v3'], dtype=float) @ V
     Et = np.array(s['E'], dtype=float)
     info = dict(V=V, box=box, A1=A1, A2=A2, a1=np.array(a1), a2=np.array(a2), E=np.array(E),
                 D=None if D is None else np.array(D), Et=Et, Dt=None if s['D'] is None else np.array(s['D'], dtype=float),
-                n1=n1, n2=n2)
+                n1=n1, n2=n2, slackE=0.0, slackD=0.0)
     info['Erange'] = max(float(Et.max() - Et.min()), 1e-3 * float(np.abs(Et).max()), 1e-12)
     if D is not None:
         info['Drange'] = max(float(info['Dt'].max() - info['Dt'].min()), 1e-3 * float(np.abs(info['Dt']).max()), 1e-12)
-    return g, info
+    return kw, info
+
+
+def build_surface(s):
+    """GammaSurface from a surface case + my own description of it"""
+    import atomman as am
+    kw, info = surface_args(s)
+    return am.defect.GammaSurface(**kw), info
+
+
+def reload_surface(g, s, route):
+    """load the data of surface case s into the EXISTING object g: set(...) or model(model=<JSON text | DataModelDict |
+    file>) written by a separate fresh object; returns my description of what g now holds.  Through a model the values
+    pass a unit conversion: slackE/slackD (1e-12 of the largest value, as in clause model) is added to the tolerances"""
+    import atomman as am
+    kw, info = surface_args(s)
+    if route == 'set':
+        g.set(kw['a1vect'], kw['a2vect'], kw['a1'], kw['a2'], kw['E_gsf'], box=kw['box'], delta=kw['delta'])
+        return info
+    m = am.defect.GammaSurface(**kw).model()
+    if route == 'model_dm':
+        g.model(model=m)
+    elif route == 'model_str':
+        g.model(model=m.json())
+    else:
+        fd, path = tempfile.mkstemp(suffix='.json')
+        try:
+            with os.fdopen(fd, 'w', encoding='utf-8') as fh:
+                fh.write(m.json())
+            g.model(model=path)
+        finally:
+            os.remove(path)
+    info['slackE'] = 1e-12 * float(np.abs(info['E']).max())
+    if info['D'] is not None:
+        info['slackD'] = 1e-12 * float(np.abs(info['D']).max())
+    info['via_model'] = True
+    return info
 
 
 def surface_labels(s, info):
@@ -199,41 +235,65 @@ def _in_band(got, lo, hi, tol, what):
 
 # ----------------------------------------------------------------------------- interp
 
-def oracle_interp(case):
-    s = case['surf']
-    g, info = build_surface(s)
-    labels = surface_labels(s, info)
+def _interp_checks(g, s, info, case, labels, tag=''):
+    """everything clause interp demands of an object g that holds surface s"""
     check_setup(g, s, info)
     al = case['aslist']
-    labels.add('list' if al else 'array')
     for smooth in (True, False):
-        tolE = (1e-8 if smooth else 1e-12) * info['Erange']
+        tolE = (1e-8 if smooth else 1e-12) * info['Erange'] + info['slackE']
         got = g.E_gsf(a1=_arg(info['a1'], al), a2=_arg(info['a2'], al), smooth=smooth)
-        _cmp(got, info['E'], tolE, 'E_gsf(smooth=%r) at the sampled (a1,a2)' % smooth)
+        _cmp(got, info['E'], tolE, 'E_gsf(smooth=%r) at the sampled (a1,a2)%s' % (smooth, tag))
         k = case['probe'] % len(info['a1'])
         got1 = g.E_gsf(a1=float(info['a1'][k]), a2=float(info['a2'][k]), smooth=smooth)
-        require(np.ndim(got1) == 0, lambda: 'E_gsf(scalar a1, a2) returned shape %r' % (np.shape(got1),))
-        _cmp(float(got1), info['E'][k], tolE, 'E_gsf(smooth=%r) at the sampled point (%r,%r) given as floats'
-             % (smooth, info['a1'][k], info['a2'][k]))
+        require(np.ndim(got1) == 0, lambda: 'E_gsf(scalar a1, a2) returned shape %r%s' % (np.shape(got1), tag))
+        _cmp(float(got1), info['E'][k], tolE, 'E_gsf(smooth=%r) at the sampled point (%r,%r) given as floats%s'
+             % (smooth, info['a1'][k], info['a2'][k], tag))
         if info['D'] is not None:
-            tolD = (1e-8 if smooth else 1e-12) * info['Drange']
+            tolD = (1e-8 if smooth else 1e-12) * info['Drange'] + info['slackD']
             got = g.delta(a1=_arg(info['a1'], al), a2=_arg(info['a2'], al), smooth=smooth)
-            _cmp(got, info['D'], tolD, 'delta(smooth=%r) at the sampled (a1,a2)' % smooth)
+            _cmp(got, info['D'], tolD, 'delta(smooth=%r) at the sampled (a1,a2)%s' % (smooth, tag))
             got1 = g.delta(a1=float(info['a1'][k]), a2=float(info['a2'][k]), smooth=smooth)
-            _cmp(float(got1), info['D'][k], tolD, 'delta(smooth=%r) at one sampled point given as floats' % smooth)
+            _cmp(float(got1), info['D'][k], tolD, 'delta(smooth=%r) at one sampled point given as floats%s' % (smooth, tag))
     if s['D'] is None:
         try:
             g.delta(a1=0.0, a2=0.0)
         except AttributeError as e:
-            require('delta data not set' in str(e), lambda: 'delta() without data raised AttributeError(%s)' % e)
+            require('delta data not set' in str(e), lambda: 'delta() without data raised AttributeError(%s)%s' % (e, tag))
             labels.add('delta_refused')
         else:
-            raise Violation('delta() on a surface without plane-separation data did not raise AttributeError')
+            raise Violation('delta() on a surface without plane-separation data did not raise AttributeError%s' % tag)
     # raw data kept as given
     d = g.data
-    _cmp(d['a1'].to_numpy(), info['a1'], 0.0, 'data.a1')
-    _cmp(d['a2'].to_numpy(), info['a2'], 0.0, 'data.a2')
-    _cmp(d['E_gsf'].to_numpy(), info['E'], 0.0, 'data.E_gsf')
+    require(list(d.columns) == ['a1', 'a2', 'E_gsf'] + ([] if s['D'] is None else ['delta']),
+            lambda: 'data columns %r%s' % (list(d.columns), tag))
+    _cmp(d['a1'].to_numpy(), info['a1'], 0.0, 'data.a1' + tag)
+    _cmp(d['a2'].to_numpy(), info['a2'], 0.0, 'data.a2' + tag)
+    _cmp(d['E_gsf'].to_numpy(), info['E'], info['slackE'], 'data.E_gsf' + tag)
+    if info['D'] is not None:
+        _cmp(d['delta'].to_numpy(), info['D'], info['slackD'], 'data.delta' + tag)
+
+
+def oracle_interp(case):
+    s = case['surf']
+    g, info = build_surface(s)
+    labels = surface_labels(s, info)
+    labels.add('list' if case['aslist'] else 'array')
+    _interp_checks(g, s, info, case, labels)
+    h = case.get('hist')
+    if h:
+        # object history: other data loaded into the SAME object, judged as a fresh object would be; then the first back
+        s2 = h['surf2']
+        info2 = reload_surface(g, s2, h['route'])
+        _interp_checks(g, s2, info2, case, labels, ' [after loading a second surface into the same object by %s]' % h['route'])
+        labels.update({'history', 'history_reload_' + ('set' if h['route'] == 'set' else 'model')})
+        if (s['D'] is None) != (s2['D'] is None):
+            labels.add('history_delta_toggled')
+        if (s['n1'], s['n2']) != (s2['n1'], s2['n2']):
+            labels.add('history_grid_changed')
+        if h['back']:
+            info1 = reload_surface(g, s, h['back_route'])
+            _interp_checks(g, s, info1, case, labels, ' [first surface loaded back into the same object by %s]' % h['back_route'])
+            labels.add('history_back')
     if labels & {'oblique', 'dup_edge', 'delta', 'shuffled'}:
         labels.add('nt')
     return labels
@@ -287,8 +347,18 @@ def oracle_periodic(case):
     if info['D'] is not None:
         fns.append(('delta', g.delta, info['Dt'], info['Drange']))
     ties = 0
-    for name, fn, T, rng in fns:
-        for smooth in (True, False):
+    # object history: the interpolation modes are queried on the one object in the drawn order (E_gsf and delta
+    # interleaved when the order is not the default one), every answer judged alike
+    modes = [bool(t) for t in (case.get('modes') or [True, False])]
+    if modes == [True, False]:
+        plan = [(f, sm_) for f in fns for sm_ in modes]
+    else:
+        plan = [(f, sm_) for sm_ in modes for f in fns]
+        labels.add('history_mode_order')
+        if len(modes) > 2:
+            labels.add('history_mode_back')
+    for (name, fn, T, rng), smooth in plan:
+        if True:
             e0 = ev(fn, q, smooth)
             e1 = ev(fn, q + k, smooth)
             require(e0.shape == (len(q),) and e1.shape == (len(q),), lambda: '%s returned shape %r for %d points' % (name, e0.shape, len(q)))
